@@ -152,6 +152,9 @@ pub fn formula_counts(family: &str, param: usize, k: usize) -> Option<Vec<usize>
                 })
                 .collect()
         }
+        // infinite dihedral group Z2 * Z2: index j has the rotation subgroup <(ab)^(j/2)> (j even) and the
+        // dihedral subgroups <(ab)^j, reflection>: one class for odd j, two for even j
+        "D_inf" => (1..=k).map(|j| if j % 2 == 1 { 1 } else { 3 }).collect(),
         // literature sequences (OEIS A005133 for PSL2(Z) = Z2 * Z3; classes of subgroups of free groups):
         // values beyond the reach of the brute-force oracle, written down from the literature
         "PSL2(Z)" => [1usize, 1, 2, 2, 1, 8, 6, 7, 14, 27, 26, 80, 133, 170, 348, 765, 1002].iter().cloned().take(k).collect::<Vec<_>>(),
@@ -186,7 +189,8 @@ impl Case for DeepCase {
 }
 
 fn check_deep(c: &DeepCase, obs: &mut Obs) -> Result<(), String> {
-    let expect = formula_counts(&c.family, c.param, c.k).ok_or("harness: unknown family")?;
+    // families without a formula: validity and irredundancy only
+    let expect = if c.family.starts_with("irredundancy only") { None } else { Some(formula_counts(&c.family, c.param, c.k).ok_or("harness: unknown family")?) };
     let rels: Vec<FreeWord> = c.rels.iter().map(|w| fw(w)).collect();
     let mut got: BTreeMap<usize, BTreeSet<Vec<usize>>> = BTreeMap::new();
     for (n, ct) in coset_tables(c.nr_gens, &rels, c.k).enumerate() {
@@ -200,9 +204,11 @@ fn check_deep(c: &DeepCase, obs: &mut Obs) -> Result<(), String> {
     }
     for j in 1..=c.k {
         let g = got.get(&j).map_or(0, |s| s.len());
+        let expect = match &expect { Some(e) => e, None => break };
         ensure!(g == expect[j - 1], "{} {} (relators {:?}) has {} conjugacy classes of subgroups of index {} (closed formula), the enumeration with bound {} lists {}", c.family, c.param, c.rels, expect[j - 1], j, c.k, g);
     }
     obs.nontrivial(c.k >= 10);
+    obs.classify(got.keys().any(|&j| j > 64), "a table with more than 64 rows");
     obs.class(&c.family);
     Ok(())
 }
@@ -303,12 +309,23 @@ pub fn run(ctx: &mut Ctx) {
         deep.push(DeepCase { family: "dihedral".into(), param: n, nr_gens: 2, rels: vec![vec![1, 1], vec![2, 2], pw(&[1, 2], n)], k: 2 * n });
         deep.push(DeepCase { family: "dihedral".into(), param: n, nr_gens: 2, rels: vec![vec![1, 1], pw(&[2], n), vec![2, 1, 2, 1]], k: 2 * n });
     }
+    // non-abelian groups with few classes per index: bounds beyond 64 / 128 rows with non-normal classes
+    for k in [40usize, t.pick(100, 160), t.pick(132, 260)] {
+        deep.push(DeepCase { family: "D_inf".into(), param: 0, nr_gens: 2, rels: vec![vec![1, 1], vec![2, 2]], k });
+        deep.push(DeepCase { family: "D_inf".into(), param: 0, nr_gens: 2, rels: vec![vec![2, 2], vec![1, 2, 1, 2]], k });
+        deep.push(DeepCase { family: "D_inf".into(), param: 0, nr_gens: 2, rels: vec![vec![2, 1, 2, 1], vec![1, 1]], k });
+    }
+    for k in [t.pick(70usize, 90usize)] {
+        deep.push(DeepCase { family: "irredundancy only: Klein bottle group".into(), param: 0, nr_gens: 2, rels: vec![vec![1, 2, -1, 2]], k });
+        deep.push(DeepCase { family: "irredundancy only: Z2 x D_inf".into(), param: 0, nr_gens: 3, rels: vec![vec![1, 1], vec![2, 2], vec![3, 3], vec![1, 3, 1, 3], vec![2, 3, 2, 3]], k });
+        deep.push(DeepCase { family: "irredundancy only: Z x Z3 semidirect (a b a^-1 = b^-1, b^3)".into(), param: 0, nr_gens: 2, rels: vec![vec![1, 2, -1, 2], vec![2, 2, 2]], k });
+    }
     deep.push(DeepCase { family: "PSL2(Z)".into(), param: 0, nr_gens: 2, rels: vec![vec![1, 1], vec![2, 2, 2]], k: t.pick(15, 17) });
     deep.push(DeepCase { family: "PSL2(Z)".into(), param: 0, nr_gens: 2, rels: vec![vec![1, 1, 1], vec![2, 2]], k: t.pick(15, 17) });
     deep.push(DeepCase { family: "F2".into(), param: 0, nr_gens: 2, rels: vec![], k: t.pick(7, 8) });
     deep.push(DeepCase { family: "F3".into(), param: 0, nr_gens: 3, rels: vec![], k: 5 });
     let nd = deep.len();
-    ctx.run_par(&SUB_DEEP, deep, Some(&format!("{} (presentation, index bound) pairs of Z, Z^2, Z^3, cyclic, dihedral groups, PSL2(Z), F2, F3 in several generator orders, bounds up to {}", nd, t.pick(40, 80))));
+    ctx.run_par(&SUB_DEEP, deep, Some(&format!("{} (presentation, index bound) pairs of Z, Z^2, Z^3, cyclic, dihedral groups, PSL2(Z), F2, F3 in several generator orders, bounds up to {}; D_inf, Klein bottle group, Z2 x D_inf with bounds beyond 64 and 128 rows", nd, t.pick(132, 260))));
 
     ctx.layer("random");
     let (k2r, k3r) = (max_k(2, b, 7), max_k(3, b, 5));
